@@ -18,7 +18,7 @@ func init() {
 	register("C17", func(tier string) CheckSpec {
 		depth, budget := 4, 280*time.Second
 		if tier == "thorough" {
-			depth, budget = 5, 40*time.Minute
+			depth, budget = 5, 20*time.Minute
 		}
 		return CheckSpec{Level: "model_checking", Rule: searchRule + "; the alphabet contains the full grid of handshake parameters (7 hop choices x ordering x port x counterparty port x version on the provider, 3 x 2 x 2 x 2 on the consumer), so every combination is attempted in every reached state", Assumptions: append([]string{
 			"IBC core's own channel-handshake checks (proofs, connection state) are not exercised: the application callbacks are called the way core calls them and the channel ends are written by the shim on acceptance",
